@@ -9,7 +9,8 @@ from hypothesis import strategies as st
 from vlib import gens
 from vlib.core import Prop, Sub, Violation, calling, check
 from vlib.oracles import bvls, lp_dist, lp_extents, lp_margin
-from vlib.systems import Sys, matrix_system, target_rows
+from vlib.systems import whole_number_bounds, Sys, matrix_system, target_rows
+from props.c15_units import twin_system
 
 
 def under_system(surplus=(1, 3)):
@@ -48,9 +49,12 @@ def assert_extents(sv, b, xmin, xmax, tol_frac, label, kind):
 
 @st.composite
 def extent_case(draw):
-    sysd = draw(under_system())
+    sysd, _whole = draw(whole_number_bounds(draw(under_system())))
     rows = draw(target_rows(sysd, ["interior", "interior", "interior", "facet", "face", "vertex"], nrows=(1, 3)))
-    return dict(system=sysd, rows=rows, entry=draw(st.sampled_from(["function", "estimator"])), one_d=draw(st.booleans()))
+    # physical units: intensities in units s times larger (bounds / s, A * s), captures in units c times smaller (A, baseline, targets * c);
+    # the oracle works on the system as drawn (order 1..100), the call is made in the other units and its answer converted back
+    return dict(system=sysd, rows=rows, entry=draw(st.sampled_from(["function", "estimator"])), one_d=draw(st.booleans()),
+                sscale=draw(st.sampled_from([1.0, 1.0, 1.0, 1e-3, 1e3])), cscale=draw(st.sampled_from([1.0, 1.0, 1.0, 1e-6, 1e-3, 1e3])))
 
 
 @st.composite
@@ -91,16 +95,19 @@ def body_proportional(case):
 
 def body_extent(case):
     sv = Sys(case["system"])
-    labs = sv.labels() + [f"surplus{sv.n - sv.m}", f"entry:{case['entry']}"]
+    labs = sv.labels() + [f"surplus{sv.n - sv.m}", f"entry:{case['entry']}", f"units:s={case.get('sscale', 1.0):g},c={case.get('cscale', 1.0):g}"] + ([f"bounds:{case['system']['bounds_form']}"] if case["system"].get("bounds_form") else [])
     for r in case["rows"]:
         b = np.asarray(r["b"], dtype=float)
         kind = r["kind"]
         boundary = kind in ("facet", "face", "vertex")
         t = lp_margin(sv.Ap, sv.basep, sv.lb, sv.ub, b)
-        arg = b if case["one_d"] else b[None, :]
+        s_, c_ = float(case.get("sscale", 1.0)), float(case.get("cscale", 1.0))
+        sv_call = sv if (s_, c_) == (1.0, 1.0) else Sys(twin_system(case["system"], s_, c_))
+        arg = (b if case["one_d"] else b[None, :]) * c_
         try:
-            with calling("range_of_solutions", allow=(ValueError,)):
-                out = call_range(sv, arg, case["entry"])
+            with calling(f"range_of_solutions (units s={s_:g}, c={c_:g})", allow=(ValueError,)):
+                out = call_range(sv_call, arg, case["entry"])
+                out = (np.asarray(out[0]) * s_, np.asarray(out[1]) * s_) + tuple(out[2:])
         except ValueError as e:
             # out-of-gamut rejection: acceptable only for a target that is outside up to rounding
             d, _ = lp_dist(sv.Ap, sv.basep, sv.lb, sv.ub, b)
